@@ -142,7 +142,7 @@ func Solve(d *Decls, asserts []*Term, getValues []*Term, timeoutS int, all bool,
 	for r := range resCh {
 		r := r
 		res.AllStats[r.b.name] = r.st
-		if r.st == "sat" || r.st == "unsat" {
+		if r.st == "sat" || r.st == "unsat" || (coverMode(tag) && r.st == "unknown") {
 			if got == nil {
 				got = &r
 				if !all {
@@ -182,6 +182,8 @@ func Solve(d *Decls, asserts []*Term, getValues []*Term, timeoutS int, all bool,
 }
 
 var keepQueries = false
+
+func coverMode(tag string) bool { return strings.Contains(tag, "/cover:") }
 
 // parseGetValue parses "((term value) (term value) ...)" printed after "sat".
 func parseGetValue(out string) map[string]string {
